@@ -39,6 +39,24 @@ def takes : Ev → Sig
   | .unusedVotes _ _ _ => allSig
   | .partyList p _ _ => { seats := true, prev := (takes p).prev, max := (takes p).max, ext := true }
 
+/-- `n_seats` is a required parameter of this tree's `evaluate`: it cannot be called without a seat count
+    argument ("no seat count" is written None for it) -/
+def needsSeats : Ev → Bool
+  | .leaf sig _ => sig.seats && sig.needs
+  | .fixedSeatCount _ _ => false
+  | .tieBreaking main _ => needsSeats main
+  | .preConverted _ e => needsSeats e
+  | .postConverted e _ => needsSeats e
+  | .votingSystem e => needsSeats e
+  | .conditioned _ _ _ => false
+  | .byConstituency _ _ _ => false
+  | .preApportioned _ _ => false
+  | .removedApportionment _ => false
+  | .byParty _ _ => false
+  | .multistage _ _ => true
+  | .unusedVotes _ _ _ => true
+  | .partyList _ _ _ => true
+
 /-- the signature-based dispatch flags of core.py tell the truth about this tree -/
 def DispatchFaithful (e : Ev) : Bool :=
   acceptsSeats e == (takes e).seats && acceptsPrevGains e == (takes e).prev
@@ -62,14 +80,16 @@ def postConvertedLaw (part : Sem) (c : V → Except Err V) : Sem := fun a => do
   c r
 
 /-- conditioning equals evaluating on the votes restricted to the candidates the eliminator passed;
-    the eliminator sees the totals over the nesting levels -/
-def conditionedLaw (elim part : Sem) (depth : Nat) : Sem := fun a => do
+    the eliminator sees the totals over the nesting levels; "no seat count" (omitted or None) stays no
+    seat count for the part, written in the form the part takes it (`seatsForm needs`: not at all, or None
+    for a part whose seat count is a required argument) -/
+def conditionedLaw (needs : Bool) (elim part : Sem) (depth : Nat) : Sem := fun a => do
   let prev := a.prev.getD (.dict [])
   let totals ← sumParty depth a.votes
   let prevTotals ← sumParty depth prev
   let passed ← elim { votes := totals, prev := some prevTotals }
   let restricted ← elimParty depth a.votes passed
-  part { a with votes := restricted, n := some (a.n.getD .none), prev := some prev }
+  part { a with votes := restricted, n := seatsForm needs (a.n.getD .none), prev := some prev }
 
 /-- the seats of every constituency: a fixed number, a fixed table, the table given as `n_seats`, or the
     apportioner's distribution of the total over the constituencies' vote totals -/
@@ -110,12 +130,12 @@ def districtLaw (part : Sem) (allowed : Option V) (dvotes seats prev max : V) : 
     pure (if isNone r then Option.none else some r)
 
 /-- the candidates a preselector allows, judged on the national totals -/
-def allowedLaw (pre : Option Sem) (votes n : V) : Except Err (Option V) :=
+def allowedLaw (needs : Bool) (pre : Option Sem) (votes n : V) : Except Err (Option V) :=
   match pre with
   | Option.none => pure Option.none
   | some p => do
       let nat ← voteTotals votes
-      let r ← p { votes := nat, n := some n }
+      let r ← p { votes := nat, n := seatsForm needs n }
       pure (some r)
 
 /-- every constituency separately; `missing` is the seat entry of a constituency the table does not mention -/
@@ -139,10 +159,10 @@ def assemble (rs : List (Key × Option V)) (kind : V) : V :=
 /-- per-constituency evaluation equals evaluating each constituency separately with its apportioned
     seats; a constituency the apportionment does not mention has no seats; constituencies without seats
     get the empty result of the kind of the evaluated ones (an empty distribution when none is) -/
-def byConstituencyLaw (part : Sem) (app : App Sem) (pre : Option Sem) : Sem := fun a => do
+def byConstituencyLaw (preNeeds : Bool) (part : Sem) (app : App Sem) (pre : Option Sem) : Sem := fun a => do
   let n := a.n.getD .none
   let seats ← apportionLaw app a.votes n
-  let allowed ← allowedLaw pre a.votes n
+  let allowed ← allowedLaw preNeeds pre a.votes n
   let kvs ← a.votes.items
   let rs ← districtsLaw part allowed seats (a.prev.getD (.dict [])) (a.max.getD (.dict [])) (.num 0) kvs
   pure (assemble rs (match rs.findSome? (·.2) with
@@ -164,11 +184,11 @@ def removedApportionmentLaw (part : Sem) : Sem := fun a => do
 
 /-- the overall evaluator on the national totals decides the seats of each party; the allocator splits a
     party's seats over the constituencies by the party's votes, previous gains and caps there -/
-def byPartyLaw (overall allocator : Sem) : Sem := fun a => do
+def byPartyLaw (overallNeeds : Bool) (overall allocator : Sem) : Sem := fun a => do
   let prev := a.prev.getD (.dict [])
   let max := a.max.getD (.dict [])
   let ov ← voteTotals a.votes
-  let ores ← overall { votes := ov, n := some (a.n.getD .none) }
+  let ores ← overall { votes := ov, n := seatsForm overallNeeds (a.n.getD .none) }
   let od ← ores.items
   let kvs ← a.votes.items
   let res ← od.foldlM (fun (res : D) pk => do
@@ -374,11 +394,11 @@ def denote : Ev → Sem
   | .leaf sig f => tol sig f
   | .fixedSeatCount e n => fixedSeatCountLaw n (denote e)
   | .tieBreaking main tb => tieBreakingLaw (denote main) (denote tb)
-  | .conditioned elim e depth => conditionedLaw (denote elim) (denote e) depth
+  | .conditioned elim e depth => conditionedLaw (needsSeats e) (denote elim) (denote e) depth
   | .preConverted c e => preConvertedLaw c.run (denote e)
   | .postConverted e c => postConvertedLaw (denote e) c.run
   | .byConstituency e app pre =>
-      byConstituencyLaw (denote e)
+      byConstituencyLaw (match pre with | some p => needsSeats p | Option.none => false) (denote e)
         (match app with | .none => .none | .int k => .int k | .dict d => .dict d | .ev ap => .ev (denote ap))
         (match pre with | some p => some (denote p) | Option.none => Option.none)
   | .preApportioned e app =>
@@ -387,8 +407,8 @@ def denote : Ev → Sem
   | .removedApportionment e => removedApportionmentLaw (denote e)
   | .byParty overall alloc =>
       match alloc with
-      | some al => byPartyLaw (denote overall) (denote al)
-      | Option.none => byPartyLaw (denote overall) (denote overall)
+      | some al => byPartyLaw (needsSeats overall) (denote overall) (denote al)
+      | Option.none => byPartyLaw (needsSeats overall) (denote overall) (denote overall)
   | .multistage rounds depth => multistageLaw (denoteList rounds) depth
   | .unusedVotes rounds quotas depth => unusedVotesLaw (denoteList rounds) quotas depth
   | .partyList party le conv => partyListLaw (denote party) le (conv.map Conv.run)
@@ -437,16 +457,5 @@ def WellFormedList : List Ev → Bool → Bool
   | e :: es, gains =>
       WellFormed e && (if gains then takesAll e else (takes e).seats) && WellFormedList es gains
 end
-
-/-! ## the more demanding readings -/
-
-/-- an omitted seat count stays omitted -/
-def conditionedIdeal (elim part : Sem) (depth : Nat) : Sem := fun a => do
-  let prev := a.prev.getD (.dict [])
-  let totals ← sumParty depth a.votes
-  let prevTotals ← sumParty depth prev
-  let passed ← elim { votes := totals, prev := some prevTotals }
-  let restricted ← elimParty depth a.votes passed
-  part { a with votes := restricted, prev := some prev }
 
 end VL.C14
